@@ -78,6 +78,7 @@ type Built struct {
 	ProductDir string
 	LogPath    string
 	Certs      map[string]*BuiltCert
+	StepName   string // name requested for the summary link
 	runs       int
 }
 
@@ -461,9 +462,9 @@ func (b *Built) VerifyWith(layout intoto.Metadata, keys map[string]intoto.Key, p
 			}
 		}()
 		if b.W.Entry == "rundir" {
-			out.Summary, out.Err = intoto.InTotoVerifyWithDirectory(layout, keys, b.LinkDir, prod, "", params, b.IntermediatePEMs(), b.W.LineNorm)
+			out.Summary, out.Err = intoto.InTotoVerifyWithDirectory(layout, keys, b.LinkDir, prod, b.StepName, params, b.IntermediatePEMs(), b.W.LineNorm)
 		} else {
-			out.Summary, out.Err = intoto.InTotoVerify(layout, keys, b.LinkDir, "", params, b.IntermediatePEMs(), b.W.LineNorm)
+			out.Summary, out.Err = intoto.InTotoVerify(layout, keys, b.LinkDir, b.StepName, params, b.IntermediatePEMs(), b.W.LineNorm)
 		}
 	}()
 	log := readLog(b.LogPath)
